@@ -445,10 +445,14 @@ class Verdict:
 
 
 def write_evidence(prop, tier, level, coverage, wall_s, violations, assumptions):
-    os.makedirs(EVID, exist_ok=True)
+    evid = EVID
+    if repo_dir() != '/repo':
+        # a seeded change is being tried in a scratch checkout: its results are not evidence about /repo
+        evid = os.path.join(OUT, 'evidence_alt', os.path.basename(repo_dir()))
+    os.makedirs(evid, exist_ok=True)
     ev = {'property_id': prop, 'tier': tier, 'seed': seed(), 'level': level, 'coverage': coverage,
           'assumptions': assumptions, 'wall_s': round(wall_s, 2), 'violations': violations}
-    with open(os.path.join(EVID, prop + '.json'), 'w') as f:
+    with open(os.path.join(evid, prop + '.json'), 'w') as f:
         json.dump(ev, f, indent=1, default=str)
 
 
